@@ -208,6 +208,8 @@ class GenericGen:
                     it.concrete[other] = r.choice(["i32", "String", "Vec<bool>"])
                     # in one `concrete(..)`, in one attribute each, or as two `concrete(..)` keys of one attribute
                     it.concrete_split = r.choice([False, True, True, "same-list"])
+        if "default-mentions-parameter" in it.tags and params[0] in it.concrete:
+            it.tags.append("k:default-mentions-concretised-parameter")
         # generics text
         parts = []
         if lifetime:
